@@ -72,6 +72,14 @@ def build_one(exe, rng, idx):
                 attrs.append((1, rng.choice([b"other@realm", b"bob@example.org", b"", b"b", b"anonymous@some.where.example.org", b"x" * rng.choice([1, 9, 10, 60, 253])])))
             if rng.random() < 0.3:
                 attrs.append(R.rand_attr(rng))
+            if rng.random() < 0.3:     # hidden attributes: the delivered ones must decrypt for THIS client (also when both hops share a secret)
+                sv_, fw_ = h.srv(ent[0]), ent[2]
+                salt = bytes([rng.randrange(256) | 0x80, rng.randrange(256)])
+                ct = R.pwd_encrypt(R.rand_bytes(rng, rng.choice([16, 32])), sv_["secret"], fw_[4:20], salt)
+                if rng.random() < 0.5:
+                    attrs.append((26, (311).to_bytes(4, "big") + bytes([rng.choice([16, 17]), len(salt + ct) + 2]) + salt + ct))
+                else:
+                    attrs.append((69, bytes([rng.randrange(32)]) + salt + ct))
             out = h.send("reply %s %s" % (ent[0], h.make_reply(ent, attrs=attrs).hex()))
             if " q=r" in out:
                 delivered_to.add(ent[3])
